@@ -207,7 +207,8 @@ pub fn pi(input: &str) -> IResult<&str, model::PI<'_>> {
 ///
 /// [\[17\] PITarget](https://www.w3.org/TR/2008/REC-xml-20081126/#NT-PITarget)
 fn pi_target(input: &str) -> IResult<&str, &str> {
-    helper::take_except(name, "xml")(input)
+    // only the whole name `xml` (in any case) is reserved, not its prefixes `x` and `xm`.
+    verify(name, |v: &str| !v.is_empty() && !v.eq_ignore_ascii_case("xml"))(input)
 }
 
 /// CDStart CData CDEnd
